@@ -866,6 +866,14 @@ func (w *Wire) Delivered(d *DatagramInfo, mod Mod, now time.Duration) {
 	}
 }
 
+// ResetOrdinals restarts the per-direction datagram ordinals (so that an ordinal-based fault
+// schedule applies again to the next connection of a dial series).
+func (w *Wire) ResetOrdinals() {
+	w.mu.Lock()
+	w.ordinals = map[string]*[2]int{}
+	w.mu.Unlock()
+}
+
 // Snapshot returns the connection taps (for use after the world has quiesced).
 func (w *Wire) Snapshot() []*ConnTap {
 	w.mu.Lock()
